@@ -519,17 +519,17 @@ fn main() {}
 ]
 
 UNTRACED_TYPES = """#[derive(Trace, Finalize)]
-%(nd)sstruct UnitS;
+%(nd)spub struct UnitS;
 #[derive(Trace, Finalize)]
-%(nd)sstruct EmptyN {}
+%(nd)spub struct EmptyN {}
 #[derive(Trace, Finalize)]
-%(nd)sstruct EmptyT();
+%(nd)spub struct EmptyT();
 #[derive(Trace, Finalize)]
-%(nd)sstruct AllIgn { #[rust_cc(ignore)] a: %(fty)s, /** doc */ #[allow(dead_code)] #[rust_cc(ignore)] b: u8 }
+%(nd)spub struct AllIgn { #[rust_cc(ignore)] pub a: %(fty)s, /** doc */ #[allow(dead_code)] #[rust_cc(ignore)] b: u8 }
 #[derive(Trace, Finalize)]
-%(nd)senum AllVarIgn { #[rust_cc(ignore)] A(%(fty)s), #[rust_cc(ignore)] B }
+%(nd)spub enum AllVarIgn { #[rust_cc(ignore)] A(%(fty)s), #[rust_cc(ignore)] B }
 #[derive(Trace, Finalize)]
-%(nd)senum UnitsOnly { A, B }
+%(nd)spub enum UnitsOnly { A, B }
 """
 UNTRACED_NAMES = ["UnitS", "EmptyN", "EmptyT", "AllIgn", "AllVarIgn", "UnitsOnly"]
 UNTRACED_DROPS = "".join("impl Drop for %s { fn drop(&mut self) {} }\n" % n for n in UNTRACED_NAMES)
